@@ -207,6 +207,38 @@ def r11c(ctx, run):
     if load_ok:
         scr = disc["args"][3]
         run.check(FA.chain_has_call(scr, "compile_expr"), em.site(), "tag is read from the compiled scrutinee", FC, "tag-of-scrutinee", em.file, em.ln, "the tag must be read from the scrutinee value")
+    # every use of a loaded tag, anywhere in the code generator: the tag is either handed to the jump table (Switch::emit) or compared for
+    # (in)equality with a discriminant; branching on the raw tag byte ("zero / non-zero") is only right for nullable pointers, which have no tag
+    n_uses = 0
+    for f2 in F.fns:
+        if f2.crate != "codegen":
+            continue
+        for c2 in f2.calls():
+            nm = short(c2.callee)
+            if nm in ("load", "uload8", "sload8"):
+                continue
+            for ai, a in enumerate(c2.args):
+                ch = f2.chain_operand(a, depth=10)
+                direct = ch.get("kind") == "call" and short(ch.get("callee", "")) in ("load", "uload8", "sload8") and len(ch.get("args", [])) >= 5 \
+                    and FA.chain_has_call(ch["args"][4], "discriminant_offset")
+                if not direct:
+                    continue
+                n_uses += 1
+                owner = strip_generics(f2.parent or f2.path)
+                if nm == "emit" and "Switch" in c2.callee:
+                    run.ok(c2.site(), "%s: tag handed to the jump table" % short(owner))
+                elif nm in ("icmp", "icmp_imm"):
+                    cc = f2.chain_operand(c2.args[1], depth=6)
+                    ccn = (cc.get("path") or cc.get("variant") or show_chain(cc, 2))
+                    good = any(x in str(ccn) for x in ("Equal", "NotEqual")) and not any(x in str(ccn) for x in ("LessThan", "GreaterThan"))
+                    run.check(good, c2.site(), "%s: tag compared for (in)equality (%s)" % (short(owner), str(ccn)[-20:]), owner, "tag-compare", c2.file, c2.ln,
+                              "a tag is compared with %s: discriminants are identities, only == / != is meaningful" % ccn)
+                else:
+                    run.finding(owner, "raw-tag-use:%s" % nm, c2.file, c2.ln,
+                                "the raw tag byte is passed to %s (argument %d) without being compared with a variant's discriminant: a branch or computation on "
+                                "'zero / non-zero' dispatches custom discriminants (e.g. `A | 1, B | 2`) to the wrong arm" % (nm, ai))
+    if n_uses < 4:
+        raise LookupError("uses of loaded tags in the code generator: %d" % n_uses)
     sets = [c for c in cs if short(c.callee) == "set_entry" and "Switch" in c.callee]
     run.check(len(sets) == 1, em.site(), "one set_entry site inside the loop over arms", FC, "entries", em.file, em.ln, "expected one Switch::set_entry site (in the loop over arms), found %d" % len(sets))
     if len(sets) == 1:
